@@ -390,6 +390,37 @@ def rule_gate(ctx):
                   "truncation is detectable" % (f, takes, bound), facts.bodies()[fn]["loc"], detail={"take": takes})
 
 
+def rule_irrefutable(ctx):
+    """the predicate on which the matrix relies when it maps an alias pattern to a wildcard"""
+    from .. import trav
+    rule = "irrefutable-predicate"
+    facts = ctx.facts
+    ctx.rule(rule, "MatrixPattern::from_typed maps an alias pattern to a wildcard because the checker only accepts alias members for which "
+                   "ValuePatternShape::is_irrefutable holds. That predicate has an explicit arm per typed pattern former (no default), "
+                   "answers false for a constructor, and recurses into every sub-pattern of the structural formers (named, alias, "
+                   "product, opened package): otherwise a refutable pattern hidden in an alias is invisible to the coverage matrix")
+    fn = "zydeco_statics::check::ValuePatternShape::is_irrefutable"
+    if fn not in facts.bodies():
+        ctx.anchor_lost(rule, fn + " not found")
+        return
+    n = trav.check_traversal(ctx, rule, fn, r"ValuePatternShape::is_irrefutable$", r"statics::syntax::VPatId\b", label="is_irrefutable",
+                             ignored_ok={"Ctor": "a constructor pattern is refutable whatever its argument"})
+    ctx.floor(rule, "sub-patterns examined", n, 4)
+    h = ctx.need_hir(rule, fn)
+    m = A.find_match_on(h["body"], lambda x: True)
+    for a in m["arms"]:
+        vs = set(_v(q) for q in (a["pat"]["pats"] if H.kind(a["pat"]) == "Or" else [a["pat"]]))
+        val = A.sexpr(a["body"], None)
+        if "Ctor" in vs:
+            ctx.check(val == "false" or val == "False", rule, "is_irrefutable:Ctor:false", "a constructor pattern is reported irrefutable (%s)" % val,
+                      [facts.bodies()[fn]["loc"][0], a["ln"]], detail={"Ctor": val})
+    # the alias judgment really consults it
+    callers = set(c["from"].split("::{closure")[0] for c in facts.calls_to().get(fn, []))
+    ctx.check(any(c.endswith("PatId> as zydeco_statics::check::Tyck<'a>>::tyck_inner_k") for c in callers), rule, "is_irrefutable:consulted",
+              "the pattern judgment no longer consults is_irrefutable for alias members (callers: %s)" % sorted(callers), None,
+              detail={"callers": sorted(callers)})
+
+
 def rule_binder_coverage(ctx):
     """every binder position of the typed language is validated (a binder outside `match` is a one-clause match)"""
     rule = "binder-coverage"
@@ -477,6 +508,7 @@ def run(ctx):
     rule_hints(ctx)
     rule_gate(ctx)
     rule_binder_coverage(ctx)
+    rule_irrefutable(ctx)
     ctx.assume("the pattern-matrix algorithm U(P, n, E) as audited is sound and complete (Maranget); agreement with brute-force enumeration "
                "is NOT decided; run-time arm selection is the Assign judgment of C02")
     return {}
